@@ -156,7 +156,7 @@ def _run(ch, kind, k, window=0.0, variant="blackout"):
             return None
 
         rig.net.fates = fates
-    if variant == "config-poke":
+    if variant in ("config-poke", "commands-in-flight"):
         pass  # healthy network, no scripted traffic
     elif variant in ("blackout", "yielding-client"):
         # the baseline has a blackout after 150 s of steady state
@@ -183,6 +183,21 @@ def _run(ch, kind, k, window=0.0, variant="blackout"):
                     gconfig.set_config_mode(False)
             rig.loop.run_for(200.0, lambda: rig.man.spa_state == S.CONNECTED)
             rig.loop.run_for(5.0)
+    elif variant == "commands-in-flight":
+        # the spa stops acknowledging pack commands; the client writes two items and presses a key through the plain
+        # (task-starting) calls, so several user-command tasks of the connection are in flight - then k more loop steps
+        rig.loop.run_for(200.0, lambda: rig.man.spa_state == S.CONNECTED and rig.facade is not None)
+        rig.loop.run_for(3.0)
+        if rig.man.spa_state != S.CONNECTED:
+            raise core.HarnessError("C10 commands-in-flight: no connection")
+        rig.peer.drop_request = lambda data, src: b"SPACK" in data
+        with rig.loop.running():
+            acc_ = rig.spa.accessors
+            tu_ = acc_["TempUnits"]
+            tu_.value = "F" if tu_.value == "C" else "C"
+            acc_["SetpointG"].value = 30.0
+            rig.spa.press(1)
+        done = rig.loop.run_steps(k)
     elif window > 0 and k > 150:
         # wake-up jitter: the last 150 loop steps BEFORE the injection run with timer-order choices, so the
         # injection lands in differently interleaved states
@@ -199,8 +214,9 @@ def _run(ch, kind, k, window=0.0, variant="blackout"):
     transports = list(rig.net.transports)
     open_before = [t for t in transports if not t.closed]
     with rig.loop.running():
+        # everything the library runs except what belongs to the manager itself (its pump and tidy loop outlive a reset)
         tasks_before = [t for t in asyncio.all_tasks(rig.loop) if not t.done()
-                        and t.get_name().split(":")[0] in ("SPA", "FACADE", "LOC")]
+                        and t.get_name().split(":")[0] not in ("SPAMAN", "ASYNC", "HARNESS")]
     locating = st == S.LOCATING_SPAS
     rig.loop.timer_choices_enabled = True
     why = None
@@ -526,6 +542,9 @@ def run(ctx):
              for k in range(marks.get("CONNECTING", 50), marks.get("CONNECTED", 700) + 900, 5 if ctx.quick else 1)]
     # sixth baseline: the configuration table re-installed at every step of the handshake, reset once connected
     jobs += [(("reset", k, 0.0, "config-poke"), ()) for k in range(0, marks.get("CONNECTED", 700) + 5, 1)]
+    # seventh baseline: user commands in flight (acknowledgements lost) when the reset / exit comes
+    jobs += [((kind, k, 0.0, "commands-in-flight"), ()) for kind in ("reset", "exit")
+             for k in list(range(0, 60, 2 if ctx.quick else 1)) + list(range(60, 1500, 97 if ctx.quick else 13))]
     # fourth baseline: a failed datagram send in steady state, then reset/exit at steps from the failure on (strided)
     jobs += [((kind, k, 0.0, "send-error"), ()) for kind in ("reset", "exit") for k in range(n2[0] - 40, n2[0] + 9000, 331 if ctx.quick else 97)]
     by_state = {}
